@@ -1,6 +1,8 @@
 """C05 -- passthrough requests have the effect and result of the same host system call."""
 import os, sys, json, re, random, shutil, stat
 from vlib import *
+sys.path.insert(0, os.path.join(ROOT, 'translator'))
+import validators
 from pt_common import *
 
 PROP = 'C05'
@@ -158,6 +160,11 @@ def run_check(tier, seed):
                       'no other actor modifies the export during a history']
     findings = []; broken = []; samples = []; evals = 0; nontriv = set()
     rng = random.Random(seed); quick = tier == 'quick'
+    # the cone of Props/C05.v contains the translated name constants (Gen/Validators.v, via Model/Names.v)
+    try:
+        write_if_changed(os.path.join(COQ, 'Gen/Validators.v'), validators.emit_coq(validators.translate(REPO)))
+    except validators.TranslateError as ex:
+        broken.append({'kind': 'translator', 'item': 'translator/validators.py', 'error': str(ex)})
     audit = std_audit(ev, PROP, broken)
     coq_ok = bool(audit.get('ok'))
     ok, out, bindir = cargo_build(['ptfs'])
@@ -175,7 +182,7 @@ def run_check(tier, seed):
             ev.assumptions.append('%s is not world-searchable: operations as non-root callers that re-resolve nothing are unaffected (all calls are relative to O_PATH descriptors)' % p); break
     try:
         cfgs = CONFIGS if quick else (CONFIGS + all_configs())
-        n_hist = 42 if quick else max(600, len(cfgs))
+        n_hist = 35 if quick else max(600, len(cfgs))
         hist = []
         for k in range(n_hist):
             hrng = random.Random(rng.getrandbits(64))
